@@ -361,6 +361,20 @@ func (in *Intent) target() string {
 	return in.Host
 }
 
+// unbracketedTarget is the one respelling of the destination that is still
+// "the host passed as an operand": ssh (unlike scp) does not take IPv6
+// literals in brackets, so a transport may strip one surrounding pair.
+func (in *Intent) unbracketedTarget() string {
+	host := in.Host
+	if len(host) > 2 && host[0] == '[' && host[len(host)-1] == ']' {
+		host = host[1 : len(host)-1]
+	}
+	if in.User != "" {
+		return in.User + "@" + host
+	}
+	return host
+}
+
 // agentCommand is the shape of the agent invocation the dialer composes (its
 // text is not URL-derived; the version-specific path is not pinned here).
 var agentCommand = regexp.MustCompile(`^[^ -][^ ]*[/\\]mutagen-agent[^ /\\]* (synchronizer|forwarder) --log-level=[a-z]+$`)
@@ -430,7 +444,7 @@ func JudgeSSH(in *Intent, args []string) string {
 	if !v.HasTarget {
 		return "ssh: no destination operand"
 	}
-	if v.Target != in.target() {
+	if v.Target != in.target() && v.Target != in.unbracketedTarget() {
 		return fmt.Sprintf("ssh: destination operand is %q, intended %q", v.Target, in.target())
 	}
 	if len(v.Command) != 1 || !in.allowed(v.Command[0]) {
